@@ -303,6 +303,24 @@ def imulRaw (s : St) (r : Id) (k : Rat) : Except Err St :=
     | .error e => .error e
   else .ok (populateRaw s1 r)
 
+/-! ### assigning a gene rule outside a context (`reaction.gene_reaction_rule = "…"`, then `update_genes_from_gpr`) -/
+
+def genesOpt : Option G → List String
+  | none => []
+  | some g => genes g
+
+/-- the rule is replaced; genes of the new rule that the model does not have are created (functional, listing only this reaction) and appended
+    to `model.genes`; the reaction's gene set becomes the genes of the rule; genes of the rule list the reaction, genes that dropped out stop
+    listing it (they stay in the model) -/
+def setRuleRaw (s : St) (r : Id) (rule : Option G) : St :=
+  let new (g : Id) : Bool := (genesOpt rule).contains g
+  let created (g : Id) : Bool := new g && !s.hasG g
+  { s with rule := upd s.rule r rule,
+           hasG := fun g => s.hasG g || new g,
+           gf := fun g => if created g then true else s.gf g,
+           rg := fun x g => if x = r then new g else s.rg x g,
+           gr := fun g x => if created g then decide (x = r) else if x = r then new g else s.gr g x }
+
 /-! ### undo -/
 
 def runUndo (s : St) : Undo → Except Err St
@@ -346,6 +364,7 @@ inductive Op where
   | rmMet (m : Id)
   | rmMetD (m : Id)                  -- remove_metabolites([m], destructive=True)
   | removeRxnO (r : Id)              -- remove_reactions([r], remove_orphans=True)
+  | setRule (r : Id) (rule : Option G)   -- reaction.gene_reaction_rule = "…" (the text parsed by `GPRM.fromString`), outside a context
   | removeRxns (rs : List Id) (orphans : Bool)   -- remove_reactions([…]): identifiers that are not in the model are skipped with a warning
   | imul (r : Id) (k : Rat)
   | enter
@@ -548,6 +567,10 @@ def apply (y : Sys) : Op → Sys × Option Err
     if y.s.hasM m then (y, none)                       -- an id that is taken: filtered out, nothing happens
     else (addMet y m, none)
   | .rmMet m => if y.s.hasM m then (rmMet y m, none) else (y, none)       -- metabolites that are not in the model are filtered out
+  | .setRule r rule =>
+    if !y.s.hasR r then (y, some .key)
+    else if inCtx y then (y, some .type)               -- inside a context: outside the modelled fragment (never sent by the harness)
+    else ({ y with s := setRuleRaw y.s r rule }, none)
   | .removeRxnO r => if y.s.hasR r then (removeRxnO y r, none) else (y, some .key)
   | .removeRxns rs orphans => (removeRxns orphans rs y, none)
   | .rmMetD m => if y.s.hasM m then (rmMetD y m, none) else (y, none)
